@@ -195,6 +195,7 @@ struct Case {
     std::vector<int> script;   // kind per round; rounds after the end are silence
     bool wrongSenderFirst;
     bool e2ee;
+    bool offlineFirst = false;   // the API is first called before the client ever connected (must complete with an error), then the case runs
 };
 
 QJsonObject caseJson(const Case &c)
@@ -203,7 +204,7 @@ QJsonObject caseJson(const Case &c)
     for (int k : c.script) {
         s.append(k);
     }
-    return { { QStringLiteral("api"), c.api }, { QStringLiteral("api_name"), QString::fromLatin1(apis()[size_t(c.api)].name) }, { QStringLiteral("script"), s }, { QStringLiteral("wrong_sender_first"), c.wrongSenderFirst }, { QStringLiteral("e2ee"), c.e2ee } };
+    return { { QStringLiteral("api"), c.api }, { QStringLiteral("api_name"), QString::fromLatin1(apis()[size_t(c.api)].name) }, { QStringLiteral("script"), s }, { QStringLiteral("wrong_sender_first"), c.wrongSenderFirst }, { QStringLiteral("e2ee"), c.e2ee }, { QStringLiteral("offline_first"), c.offlineFirst } };
 }
 
 QString scriptName(const Case &c)
@@ -240,9 +241,27 @@ Outcome runOne(int worker, const Case &c, bool verbose)
     if (c.e2ee) {
         s.rig.client->setEncryptionExtension(&e2ee);
     }
+    if (!s.rig.listen()) {
+        out.error = QStringLiteral("listen failed");
+        return out;
+    }
+    if (c.offlineFirst) {
+        // configure the account (so that the own JID is known) but do not connect
+        s.rig.client->configuration() = s.rig.baseConfig();
+        apis()[size_t(c.api)].call(s);
+        QCoreApplication::processEvents();
+        QCoreApplication::processEvents();
+        if (s.done != 1) {
+            out.problem = s.done == 0 ? QStringLiteral("never-completes-when-offline") : QStringLiteral("completed-%1-times-when-offline").arg(s.done);
+            out.done = s.done;
+            s.rig.client->setEncryptionExtension(nullptr);
+            return out;
+        }
+        s.done = 0;
+    }
     LoginOptions lo;
     lo.offerSm = false;
-    if (!s.rig.listen() || !s.rig.connectClient(s.rig.baseConfig()) || !s.rig.login(lo)) {
+    if (!s.rig.connectClient(s.rig.baseConfig()) || !s.rig.login(lo)) {
         out.error = QStringLiteral("login failed: ") + s.rig.error;
         return out;
     }
@@ -450,6 +469,7 @@ Case caseFromJson(const QJsonObject &o)
     }
     c.wrongSenderFirst = o.value(QStringLiteral("wrong_sender_first")).toBool();
     c.e2ee = o.value(QStringLiteral("e2ee")).toBool();
+    c.offlineFirst = o.value(QStringLiteral("offline_first")).toBool();
     return c;
 }
 
@@ -481,11 +501,14 @@ int main(int argc, char **argv)
         if (o.mamUsed) {
             ctx.count(QStringLiteral("mam_page_cases"));
         }
+        if (c.offlineFirst) {
+            ctx.count(QStringLiteral("offline_first_cases"));
+        }
         ctx.outcome(QStringLiteral("%1/%2/%3/%4").arg(c.api).arg(o.done).arg(o.requestsSeen).arg(o.completedBeforeLoss));
         if (!o.problem.isEmpty()) {
             const QString key = QStringLiteral("C07/manager-request-%1:%2:%3:e2ee=%4").arg(o.problem, QString::fromLatin1(apis()[size_t(c.api)].name), c.script.empty() ? QStringLiteral("silence") : QString::fromLatin1(kindNames[c.script[0]])).arg(c.e2ee);
             ctx.violation(key, QStringLiteral("%1 answered with [%2]%3, encryption extension %4: the returned task %5 (completions: %6, request IQs seen: %7)")
-                                   .arg(QString::fromLatin1(apis()[size_t(c.api)].name), scriptName(c), c.wrongSenderFirst ? QStringLiteral(" after a forged reply from a stranger") : QString(),
+                                   .arg(QString::fromLatin1(apis()[size_t(c.api)].name), scriptName(c), (c.offlineFirst ? QStringLiteral(" (after the same call was made while offline)") : QString()) + (c.wrongSenderFirst ? QStringLiteral(" after a forged reply from a stranger") : QString()),
                                         c.e2ee ? QStringLiteral("installed") : QStringLiteral("absent"), o.problem)
                                    .arg(o.done)
                                    .arg(o.requestsSeen),
@@ -553,6 +576,10 @@ int main(int argc, char **argv)
                     if (ctx.mine()) {
                         cases.push_back(Case { a, sc, w == 1, e == 1 });
                     }
+                    // the same call made once before the client ever connected
+                    if (w == 0 && sc.size() <= 1 && ctx.mine()) {
+                        cases.push_back(Case { a, sc, false, e == 1, true });
+                    }
                 }
             }
         }
@@ -583,7 +610,7 @@ int main(int argc, char **argv)
             const Case dead = caseFromJson(QJsonDocument::fromJson(last).object());
             size_t i = next;
             for (; i < cases.size(); ++i) {
-                if (cases[i].script == dead.script && cases[i].wrongSenderFirst == dead.wrongSenderFirst && cases[i].e2ee == dead.e2ee) {
+                if (cases[i].script == dead.script && cases[i].wrongSenderFirst == dead.wrongSenderFirst && cases[i].e2ee == dead.e2ee && cases[i].offlineFirst == dead.offlineFirst) {
                     break;
                 }
             }
